@@ -476,7 +476,13 @@ func (c *Float) Ident() string {
 	// Insert decimal point if not present.
 	//    3e4 -> 3.0e4
 	//    42  -> 42.0
-	s := c.X.Text('g', -1)
+	//
+	// Note, the value is exactly representable as a double (checked above), and
+	// LLVM reads decimal literals as doubles; use the shortest decimal that
+	// round-trips as a double (big.Float.Text picks a decimal of the neighbour
+	// below for some powers of two, e.g. 3.355443e+07 for the float 33554432).
+	f, _ := c.X.Float64()
+	s := strconv.FormatFloat(f, 'g', -1, 64)
 	if !strings.ContainsRune(s, '.') {
 		if pos := strings.IndexByte(s, 'e'); pos != -1 {
 			s = s[:pos] + ".0" + s[pos:]
